@@ -33,6 +33,11 @@ var R *ev.Run
 var replayKey string
 
 func TestMain(m *testing.M) {
+	if os.Getenv("C11_CHILD") != "" {
+		// subprocess worker (see worker_test.go): no evidence, no verdict
+		logging.SetAllLoggers(logging.LevelFatal)
+		os.Exit(childMain())
+	}
 	R = ev.New("C11", "exploration")
 	R.Rule("finite product, real rest.NewAPI over HTTP on 127.0.0.1:0 with recording RPC services: " +
 		"(route from the live mux router x 7 methods x path-variable alphabet) + (option one-at-a-time and all pairs over a valid base, per route) " +
@@ -44,6 +49,7 @@ func TestMain(m *testing.M) {
 	R.Assume("'the response body is a single JSON document' is read as: never more than one document and never non-JSON bytes; an empty body (204, 405 of the router, HEAD, 3xx) is not flagged")
 	R.Assume("3xx answers of the router (strict-slash / path cleaning redirects) are required to perform no RPC call; their body is not checked")
 	R.Assume("option values the option's own decoder accepts without error although they name nothing (mode=garbage, local=yes, undecodable peer in user-allocations, mixed valid+invalid filters, meta- with empty key, chunker/hash names) are in the 'silent' class: either outcome (refused with 4xx and no call, or performed) is accepted and the affected field is not compared")
+	R.Assume("the option enumeration of POST /add runs against an identical real server hosted in a child process of the same test binary (a panic of the code under test outside the handler goroutine would otherwise kill the check); a dead child is reported as a violation")
 	R.Assume("expire-in is compared against [now_before+d, now_after+d] taken around the request (no sleeping, monotone bound)")
 	if p := os.Getenv("VERIF_REPLAY"); p != "" {
 		b, err := os.ReadFile(p)
